@@ -337,5 +337,14 @@ func (s *Session) RollbackTx() {
 	s.rollback()
 }
 
+// MarkFailed puts an open explicit transaction in the aborted state (injected statement failure).
+func (s *Session) MarkFailed() {
+	s.db.mu.Lock()
+	defer s.db.mu.Unlock()
+	if s.top != 0 {
+		s.failed = true
+	}
+}
+
 // InTx reports whether a transaction is open (for the harness).
 func (s *Session) InTx() bool { return s.top != 0 }
